@@ -233,4 +233,352 @@ theorem tryCur_mirror {cfg : Cfg} {k : Kind} {s t : State} {L : Layout} {hh : Hi
     · rw [e1]; exact CovC.refl _
     · rw [e1]; exact CovC.modify_pos _ _ _
 
+/-! ## walkNext in a covering state -/
+theorem resetPos_samePlace (cfg : Cfg) {c c' : Chunk} (h : SamePlace c c') :
+    SamePlace (c.resetPos cfg) (c'.resetPos cfg) ∧ (c'.resetPos cfg).pos = (c.resetPos cfg).pos := by
+  refine ⟨h, ?_⟩
+  show (if cfg.up then c'.contentStart cfg else c'.contentEnd cfg) = (if cfg.up then c.contentStart cfg else c.contentEnd cfg)
+  rw [contentStart_congr cfg h, contentEnd_congr cfg h]
+
+/-- entering chunk `i+1` in two states of which the second covers the first -/
+theorem Sim.enter (cfg : Cfg) {s t : State} {i : Nat} {c c' : Chunk} (h : Cov s t)
+    (hc : s.chunks[i+1]? = some c) (hc' : t.chunks[i+1]? = some c') (sp : SamePlace c c') :
+    Sim { s with chunks := s.chunks.set (i+1) (c.resetPos cfg), cur := .chunk (i+1) }
+        { t with chunks := t.chunks.set (i+1) (c'.resetPos cfg), cur := .chunk (i+1) } := by
+  obtain ⟨hm, hcov⟩ := h
+  have hls := (List.getElem?_eq_some_iff.1 hc).1
+  have hlt := (List.getElem?_eq_some_iff.1 hc').1
+  refine ⟨⟨hm, ?_⟩, rfl, ?_⟩
+  · intro j x hx
+    show ∃ y, (t.chunks.set (i+1) (c'.resetPos cfg))[j]? = some y ∧ _
+    have hx' : (s.chunks.set (i+1) (c.resetPos cfg))[j]? = some x := hx
+    rw [List.getElem?_set] at hx' ⊢
+    by_cases hij : i + 1 = j
+    · simp only [hij, ↓reduceIte] at hx' ⊢
+      subst hij
+      simp only [hls, hlt, ↓reduceIte, Option.some.injEq] at hx' ⊢
+      subst hx'
+      exact ⟨_, rfl, (resetPos_samePlace cfg sp).1⟩
+    · simp only [hij, ↓reduceIte] at hx' ⊢
+      exact hcov j x hx'
+  · intro i' x hi' hx
+    simp only [Cur.chunk.injEq] at hi'
+    subst hi'
+    have hx' : (s.chunks.set (i+1) (c.resetPos cfg))[i+1]? = some x := hx
+    show ∃ y, (t.chunks.set (i+1) (c'.resetPos cfg))[i+1]? = some y ∧ _
+    rw [List.getElem?_set] at hx' ⊢
+    simp only [↓reduceIte, hls, hlt, Option.some.injEq] at hx' ⊢
+    subst hx'
+    exact ⟨_, rfl, (resetPos_samePlace cfg sp).2⟩
+
+theorem CovC.set_reset (cfg : Cfg) {l : List Chunk} {j : Nat} {c : Chunk} (hc : l[j]? = some c) :
+    CovC l (l.set j (c.resetPos cfg)) := by
+  intro k x hx
+  rw [List.getElem?_set]
+  have hl := (List.getElem?_eq_some_iff.1 hc).1
+  by_cases hjk : j = k
+  · subst hjk
+    rw [hc] at hx; cases hx
+    simp only [↓reduceIte, hl]
+    exact ⟨_, rfl, SamePlace.refl _⟩
+  · simp only [hjk, ↓reduceIte]
+    exact ⟨x, hx, SamePlace.refl x⟩
+
+/-- `walkNext` in a state `t` that covers `s` takes the same decisions as in `s` for all chunks of `s`:
+    (a) if it finds room in `s` it finds the same room in `t`;
+    (b) if it finds none in `s`, the walk in `t` continues behind the chunks of `s`. -/
+theorem walkNext_mirror {cfg : Cfg} {k : Kind} {L : Layout} {hh : Hints} :
+    ∀ (n i : Nat) (s t : State) (ft : Nat), Cov s t → s.chunks.length = i + 1 + n → n ≤ ft →
+    (∀ v s' s2, walkNext cfg k L hh n i s = .ok (some (v, s'), s2) →
+      ∃ t', walkNext cfg k L hh ft i t = .ok (some (v, t'), t') ∧ Sim s' t' ∧ t'.reqs = t.reqs ∧
+        t'.resps = t.resps ∧ CovC t.chunks t'.chunks ∧ t'.chunks.length = t.chunks.length) ∧
+    (∀ s', walkNext cfg k L hh n i s = .ok (none, s') →
+      ∃ t', walkNext cfg k L hh ft i t = walkNext cfg k L hh (ft - n) (i + n) t' ∧ Cov s' t' ∧ t'.reqs = t.reqs ∧
+        t'.resps = t.resps ∧ CovC t.chunks t'.chunks ∧ t'.chunks.length = t.chunks.length) := by
+  intro n
+  induction n with
+  | zero =>
+    intro i s t ft hcov hlen hft
+    refine ⟨fun v s' s2 e => ?_, fun s' e => ?_⟩
+    · simp only [walkNext, pure_eq_ok, Except.ok.injEq, Prod.mk.injEq] at e
+      cases e.1
+    · simp only [walkNext, pure_eq_ok, Except.ok.injEq, Prod.mk.injEq] at e
+      obtain ⟨_, rfl⟩ := e
+      exact ⟨t, rfl, hcov, rfl, rfl, CovC.refl _, rfl⟩
+  | succ n ih =>
+    intro i s t ft hcov hlen hft
+    obtain ⟨ft', rfl⟩ : ∃ ft', ft = ft' + 1 := ⟨ft - 1, by omega⟩
+    have hi1 : i + 1 < s.chunks.length := by omega
+    have hc : s.chunks[i+1]? = some s.chunks[i+1] := List.getElem?_eq_getElem hi1
+    obtain ⟨c', hc', sp⟩ := hcov.2 (i+1) _ hc
+    have hsim := Sim.enter cfg hcov hc hc' sp
+    have hok : CurOK { s with chunks := s.chunks.set (i+1) ((s.chunks[i+1]).resetPos cfg), cur := Cur.chunk (i+1) } := by
+      intro j hj
+      simp only [Cur.chunk.injEq] at hj
+      subst hj
+      show i + 1 < (s.chunks.set (i+1) _).length
+      rw [List.length_set]; exact hi1
+    obtain ⟨m1, m2⟩ := tryCur_mirror (cfg := cfg) (k := k) (L := L) (hh := hh) hsim hok
+    have hcovt : CovC t.chunks (t.chunks.set (i+1) (c'.resetPos cfg)) := CovC.set_reset cfg hc'
+    have hlent : (t.chunks.set (i+1) (c'.resetPos cfg)).length = t.chunks.length := List.length_set
+    refine ⟨fun v s' s2 e => ?_, fun s' e => ?_⟩
+    · unfold walkNext at e ⊢
+      simp only [hc, hc'] at e ⊢
+      obtain ⟨o, ho, e⟩ := bind_eq_ok e
+      cases o with
+      | some r =>
+        simp only [pure_eq_ok, Except.ok.injEq, Prod.mk.injEq, Option.some.injEq] at e
+        obtain ⟨rfl, rfl⟩ := e
+        obtain ⟨t', ht', g1, g2, g3, g4, g5⟩ := m2 v s' ho
+        refine ⟨t', ?_, g1, g2, g3, hcovt.trans g4, g5.trans hlent⟩
+        rw [ht']; rfl
+      | none =>
+        simp only at e
+        rw [m1 ho]
+        simp only [bind_ok]
+        have hlen' : ({ s with chunks := s.chunks.set (i+1) ((s.chunks[i+1]).resetPos cfg), cur := Cur.chunk (i+1) } : State).chunks.length
+            = (i + 1) + 1 + n := by
+          show (s.chunks.set (i+1) _).length = _
+          rw [List.length_set]; omega
+        obtain ⟨a1, _⟩ := ih (i+1) _ _ ft' hsim.1 hlen' (by omega)
+        obtain ⟨t', ht', g1, g2, g3, g4, g5⟩ := a1 v s' s2 e
+        exact ⟨t', ht', g1, g2, g3, hcovt.trans g4, g5.trans hlent⟩
+    · unfold walkNext at e
+      simp only [hc] at e
+      obtain ⟨o, ho, e⟩ := bind_eq_ok e
+      cases o with
+      | some r =>
+        simp only [pure_eq_ok, Except.ok.injEq, Prod.mk.injEq] at e
+        cases e.1
+      | none =>
+        simp only at e
+        have hlen' : ({ s with chunks := s.chunks.set (i+1) ((s.chunks[i+1]).resetPos cfg), cur := Cur.chunk (i+1) } : State).chunks.length
+            = (i + 1) + 1 + n := by
+          show (s.chunks.set (i+1) _).length = _
+          rw [List.length_set]; omega
+        obtain ⟨_, a2⟩ := ih (i+1) _ _ ft' hsim.1 hlen' (by omega)
+        obtain ⟨t', ht', g1, g2, g3, g4, g5⟩ := a2 s' e
+        refine ⟨t', ?_, g1, g2, g3, hcovt.trans g4, g5.trans hlent⟩
+        have e1 : ft' + 1 - (n + 1) = ft' - n := by omega
+        have e2 : i + (n + 1) = i + 1 + n := by omega
+        rw [e1, e2, ← ht']
+        conv => lhs; unfold walkNext
+        simp only [hc', m1 ho, bind_ok]
+
+/-! ## Replay of the slow path, of alloc and of a workload -/
+theorem freshChunk_pos (cfg : Cfg) (p g size size' : Nat) :
+    ((freshChunk cfg p g size size').resetPos cfg).pos = (freshChunk cfg p g size size').pos := by
+  cases h : cfg.up <;> simp [freshChunk, Chunk.resetPos, Chunk.contentStart, Chunk.contentEnd, h]
+
+/-- making chunk `j` current: in `s` it already is at its reset position, in `t` it is reset -/
+theorem Sim.enterFresh (cfg : Cfg) {s t : State} {j : Nat} {c c' : Chunk} (h : Cov s t)
+    (hc : s.chunks[j]? = some c) (hpos : (c.resetPos cfg).pos = c.pos)
+    (hc' : t.chunks[j]? = some c') (sp : SamePlace c c') :
+    Sim { s with cur := .chunk j }
+        { t with chunks := t.chunks.set j (c'.resetPos cfg), cur := .chunk j } := by
+  obtain ⟨hm, hcov⟩ := h
+  have hlt := (List.getElem?_eq_some_iff.1 hc').1
+  refine ⟨⟨hm, ?_⟩, rfl, ?_⟩
+  · intro k x hx
+    show ∃ y, (t.chunks.set j (c'.resetPos cfg))[k]? = some y ∧ _
+    have hx' : s.chunks[k]? = some x := hx
+    rw [List.getElem?_set]
+    by_cases hjk : j = k
+    · subst hjk
+      rw [hc] at hx'; cases hx'
+      simp only [↓reduceIte, hlt]
+      exact ⟨_, rfl, sp⟩
+    · simp only [hjk, ↓reduceIte]
+      exact hcov k x hx'
+  · intro i' x hi' hx
+    simp only [Cur.chunk.injEq] at hi'
+    subst hi'
+    have hx' : s.chunks[j]? = some x := hx
+    rw [hc] at hx'; cases hx'
+    show ∃ y, (t.chunks.set j (c'.resetPos cfg))[j]? = some y ∧ _
+    rw [List.getElem?_set]
+    simp only [↓reduceIte, hlt]
+    exact ⟨_, rfl, (resetPos_samePlace cfg sp).2.trans hpos⟩
+
+/-- Replay of the slow path.  `s` is the state of the first run (current chunk `i`), `s1` its result
+    (success with value `v`); `t` has the same current chunk and minimum alignment, covers the chunks
+    of `s` and of `s1` (all chunks the first run ended with are still there).  Then the slow path in `t`
+    succeeds with the same value and never consults the base allocator. -/
+theorem inAnotherChunk_replay {cfg : Cfg} {k : Kind} {L : Layout} {hh : Hints} {s t s1 : State} {i : Nat}
+    {v : Nat × Nat}
+    (hcur : s.cur = .chunk i) (hi : i < s.chunks.length) (hcov : Cov s t) (htcur : t.cur = s.cur)
+    (e : inAnotherChunk cfg k s L hh = .ok (s1, .ok v)) (hfin : CovC s1.chunks t.chunks) :
+    ∃ t1, inAnotherChunk cfg k t L hh = .ok (t1, .ok v) ∧ Sim s1 t1 ∧ t1.reqs = t.reqs ∧ t1.resps = t.resps ∧
+      CovC t.chunks t1.chunks ∧ t1.chunks.length = t.chunks.length ∧
+      ∃ j, s1.cur = .chunk j ∧ j < s1.chunks.length := by
+  rw [inAnotherChunk_eq] at e ⊢
+  have htc : t.cur = .chunk i := htcur.trans hcur
+  simp only [hcur] at e
+  simp only [htc]
+  obtain ⟨n, hn⟩ : ∃ n, s.chunks.length = i + 1 + n := ⟨s.chunks.length - (i+1), by omega⟩
+  have hst := hcov.2.length_le
+  have e1 : s.chunks.length - (i+1) = n := by omega
+  rw [e1] at e
+  obtain ⟨⟨o, sw⟩, hw, e⟩ := bind_eq_ok e
+  obtain ⟨ma, mb⟩ := walkNext_mirror (cfg := cfg) (k := k) (L := L) (hh := hh) n i s t (t.chunks.length - (i+1))
+    hcov hn (by omega)
+  obtain ⟨w1, w2, w3, w4, w5, w6⟩ := walkNext_frame _ _ _ hw
+  cases o with
+  | some x =>
+    obtain ⟨v', s'⟩ := x
+    simp only [pure_eq_ok, Except.ok.injEq, Prod.mk.injEq] at e
+    obtain ⟨rfl, rfl⟩ := e
+    obtain ⟨t', ht', g1, g2, g3, g4, g5⟩ := ma v' s' sw hw
+    refine ⟨t', by rw [ht']; rfl, g1, g2, g3, g4, g5, ?_⟩
+    have hs' : s' = sw := w6 _ rfl
+    subst hs'
+    rw [w3]
+    rcases w5 with h5 | ⟨j', _, hj2, hj3⟩
+    · exact ⟨i, h5.trans hcur, hi⟩
+    · exact ⟨j', hj3, hj2⟩
+  | none =>
+    simp only at e
+    obtain ⟨⟨sa, r1⟩, ha, e⟩ := bind_eq_ok e
+    cases r1 with
+    | error er => simp only [freshStep, pure_eq_ok, Except.ok.injEq, Prod.mk.injEq] at e; cases e.2
+    | ok idx =>
+      simp only [freshStep] at e
+      obtain ⟨o2, ho2, e⟩ := bind_eq_ok e
+      cases o2 with
+      | none => cases e
+      | some x =>
+        obtain ⟨v', s2⟩ := x
+        simp only [pure_eq_ok, Except.ok.injEq, Prod.mk.injEq] at e
+        obtain ⟨rfl, rfl⟩ := e
+        -- the chunk that was created
+        obtain ⟨last, _, hov | ⟨_, _, size, _, _, _, hnc⟩⟩ := appendFor_cases ha
+        · cases hov.2
+        rcases newChunk_cases hnc with ⟨_, _, h3⟩ | ⟨_, _, _, _, h3⟩ | ⟨_, p, g, rest, size', _, _, _, _, hsa, hidx⟩
+        · cases h3
+        · cases h3
+        simp only [Except.ok.injEq] at hidx
+        subst hidx
+        obtain ⟨f1, f2, f3, f4, f5⟩ := tryCur_frame ho2
+        have hsalen : sa.chunks.length = sw.chunks.length + 1 := by
+          rw [hsa]; simp only [List.length_append, List.length_cons, List.length_nil]
+        have hfreshAt : sa.chunks[sw.chunks.length]? = some (freshChunk cfg p g size size') := by
+          rw [hsa]; simp only [List.getElem?_append_right (Nat.le_refl _), Nat.sub_self, List.getElem?_cons_zero]
+        -- the replay walks past the chunks of `s`
+        obtain ⟨t', ht', g1, g2, g3, g4, g5⟩ := mb sw hw
+        have hs1len : s2.chunks.length = sw.chunks.length + 1 := by rw [← hsalen]; exact f4
+        have hx0 := (f5 0 (fun _ _ => Nat.zero_le _)).chunk sw.chunks.length _ hfreshAt
+        obtain ⟨x, hx, spx, _⟩ := hx0
+        obtain ⟨y, hy, spy⟩ := hfin _ x hx
+        obtain ⟨y', hy', spy'⟩ := g4 _ y hy
+        have spf : SamePlace (freshChunk cfg p g size size') y' := (spx.trans spy).trans spy'
+        have htl : sw.chunks.length < t.chunks.length := (List.getElem?_eq_some_iff.1 hy).1
+        obtain ⟨m, hm⟩ : ∃ m, t.chunks.length - (i + 1) - n = m + 1 := ⟨t.chunks.length - (i+1) - n - 1, by omega⟩
+        have hin : i + n + 1 = sw.chunks.length := by omega
+        have hcovsa : Cov sa t' := by
+          refine ⟨?_, ?_⟩
+          · rw [g1.1, hsa]
+          · intro j c hc
+            rw [hsa] at hc
+            simp only at hc
+            by_cases hj : j < sw.chunks.length
+            · rw [List.getElem?_append_left hj] at hc
+              exact g1.2 j c hc
+            · have hlt := (List.getElem?_eq_some_iff.1 hc).1
+              simp only [List.length_append, List.length_cons, List.length_nil] at hlt
+              have : j = sw.chunks.length := by omega
+              subst this
+              simp only [List.getElem?_append_right (Nat.le_refl _), Nat.sub_self, List.getElem?_cons_zero,
+                Option.some.injEq] at hc
+              subst hc
+              exact ⟨y', hy', spf⟩
+        have hsim := Sim.enterFresh cfg hcovsa hfreshAt (freshChunk_pos cfg p g size size') hy' spf
+        have hok : CurOK { sa with cur := Cur.chunk sw.chunks.length } := by
+          intro j hj
+          simp only [Cur.chunk.injEq] at hj
+          subst hj
+          show sw.chunks.length < sa.chunks.length
+          omega
+        obtain ⟨_, m2⟩ := tryCur_mirror (cfg := cfg) (k := k) (L := L) (hh := hh) hsim hok
+        obtain ⟨t1, ht1, q1, q2, q3, q4, q5⟩ := m2 v' s2 ho2
+        refine ⟨t1, ?_, q1, q2.trans g2, q3.trans g3, g4.trans ((CovC.set_reset cfg hy').trans q4), ?_, ?_⟩
+        · rw [ht', hm]
+          unfold walkNext
+          rw [hin]
+          simp only [hy', ht1, bind_ok]
+          rfl
+        · rw [q5]; show (t'.chunks.set _ _).length = _; rw [List.length_set]; exact g5
+        · exact ⟨sw.chunks.length, f1, by omega⟩
+
+/-- replay of `allocGeneric` (fast path, then slow path) -/
+theorem allocGeneric_replay {cfg : Cfg} {k : Kind} {L : Layout} {hh hs : Hints} {s t s1 : State} {i : Nat}
+    {v : Nat × Nat}
+    (hcur : s.cur = .chunk i) (hi : i < s.chunks.length) (hsim : Sim s t)
+    (e : allocGeneric cfg k s L hh hs = .ok (s1, .ok v)) (hfin : CovC s1.chunks t.chunks) :
+    ∃ t1, allocGeneric cfg k t L hh hs = .ok (t1, .ok v) ∧ Sim s1 t1 ∧ t1.reqs = t.reqs ∧ t1.resps = t.resps ∧
+      CovC t.chunks t1.chunks ∧ t1.chunks.length = t.chunks.length ∧
+      ∃ j, s1.cur = .chunk j ∧ j < s1.chunks.length := by
+  have hok : CurOK s := fun j hj => by rw [hcur] at hj; cases hj; exact hi
+  obtain ⟨m1, m2⟩ := tryCur_mirror (cfg := cfg) (k := k) (L := L) (hh := hh) hsim hok
+  unfold allocGeneric at e ⊢
+  obtain ⟨o, ho, e⟩ := bind_eq_ok e
+  cases o with
+  | some x =>
+    obtain ⟨v', s'⟩ := x
+    simp only [pure_eq_ok, Except.ok.injEq, Prod.mk.injEq] at e
+    obtain ⟨rfl, rfl⟩ := e
+    obtain ⟨t', ht', g1, g2, g3, g4, g5⟩ := m2 v' s' ho
+    obtain ⟨f1, _, _, f4, _⟩ := tryCur_frame ho
+    exact ⟨t', by rw [ht']; rfl, g1, g2, g3, g4, g5, i, f1.trans hcur, by rw [f4]; exact hi⟩
+  | none =>
+    simp only at e
+    rw [m1 ho]
+    simp only [bind_ok]
+    exact inAnotherChunk_replay hcur hi hsim.1 hsim.2.1 e hfin
+
+theorem alloc_replay {cfg : Cfg} {L : Layout} {s t s1 : State} {i p : Nat}
+    (hcur : s.cur = .chunk i) (hi : i < s.chunks.length) (hsim : Sim s t)
+    (e : alloc cfg s L = .ok (s1, .ok p)) (hfin : CovC s1.chunks t.chunks) :
+    ∃ t1, alloc cfg t L = .ok (t1, .ok p) ∧ Sim s1 t1 ∧ t1.reqs = t.reqs ∧ t1.resps = t.resps ∧
+      CovC t.chunks t1.chunks ∧ t1.chunks.length = t.chunks.length ∧
+      ∃ j, s1.cur = .chunk j ∧ j < s1.chunks.length := by
+  unfold alloc at e ⊢
+  obtain ⟨⟨s', r⟩, h1, e⟩ := bind_eq_ok e
+  simp only [pure_eq_ok, Except.ok.injEq, Prod.mk.injEq] at e
+  obtain ⟨rfl, h2⟩ := e
+  cases r with
+  | error er => simp only [Except.map] at h2; cases h2
+  | ok v =>
+    simp only [Except.map, Except.ok.injEq] at h2
+    obtain ⟨t1, g0, g⟩ := allocGeneric_replay hcur hi hsim h1 hfin
+    refine ⟨t1, ?_, g⟩
+    rw [g0]
+    simp only [bind_ok, pure_eq_ok, Except.map, h2]
+
+/-- a workload: a sequence of allocations that all succeed, with the addresses returned -/
+inductive Run (cfg : Cfg) : State → List Layout → State → List Nat → Prop
+  | nil (s : State) : Run cfg s [] s []
+  | cons {s s1 s' : State} {L : Layout} {Ls : List Layout} {p : Nat} {ps : List Nat} :
+      alloc cfg s L = .ok (s1, .ok p) → Run cfg s1 Ls s' ps → Run cfg s (L :: Ls) s' (p :: ps)
+
+theorem Run.ext {cfg : Cfg} {s s' : State} {Ls : List Layout} {ps : List Nat} (h : Run cfg s Ls s' ps) :
+    Ext 0 s s' := by
+  induction h with
+  | nil s => exact Ext.refl 0 s
+  | cons ha _ ih => exact ((alloc_frame ha).1 0 (fun _ _ => Nat.zero_le _)).trans ih
+
+/-- replaying a whole workload in a state that has the same current chunk and position as the start
+    of the first run and still has all chunks the first run ended with: every allocation succeeds
+    at the same address and the base allocator is never consulted -/
+theorem Run.replay {cfg : Cfg} {s s' : State} {Ls : List Layout} {ps : List Nat} (h : Run cfg s Ls s' ps) :
+    ∀ (t : State), (∃ i, s.cur = .chunk i ∧ i < s.chunks.length) → Sim s t → CovC s'.chunks t.chunks →
+    ∃ t', Run cfg t Ls t' ps ∧ t'.reqs = t.reqs ∧ t'.resps = t.resps ∧ Sim s' t' ∧
+      t'.chunks.length = t.chunks.length ∧ ∃ j, s'.cur = .chunk j ∧ j < s'.chunks.length := by
+  induction h with
+  | nil s => intro t hc hsim _; exact ⟨t, Run.nil t, rfl, rfl, hsim, rfl, hc⟩
+  | cons ha hr ih =>
+    intro t ⟨i, hcur, hi⟩ hsim hfin
+    obtain ⟨t1, g0, g1, g2, g3, g4, g5, g6⟩ := alloc_replay hcur hi hsim ha (hr.ext.covC.trans hfin)
+    obtain ⟨t', r0, r1, r2, r3, r4, r5⟩ := ih t1 g6 g1 (hfin.trans g4)
+    exact ⟨t', Run.cons g0 r0, r1.trans g2, r2.trans g3, r3, r4.trans g5, r5⟩
+
 end Ledger
